@@ -205,6 +205,32 @@ CHECKS.update({
     ),
 })
 
+CHECKS.update({
+    "C13": (
+        "Hypothesis RuleBasedStateMachine over dynamics-assignment histories (name / Particle / (transition,node) /"
+        " TwoBodyDecay / deprecated set_dynamics, public builders + probe builder) against a harness-side selection"
+        " model; structural differential of chain components",
+        "After each formulate every chain component must equal the dynamics-free component times the product of the"
+        " modelled builder on that node's own variables (derived from the topology by harness code); probe atoms must"
+        " carry the masses of the chain they multiply and be present in every (also symmetrised) chain; defaults must"
+        " equal the particle's tabulated values.",
+        "Trusts the public builder functions as callables (they are applied by the harness to harness-derived variable"
+        " sets; their own numerics are C12's subject) and sympy structural equality with a numeric fallback.",
+        "DESIGN.md §4 C13",
+    ),
+    "C17": (
+        "Hypothesis-generated models x 1-3 successive rename maps (fresh / merge / swap / chain / kinematic variable /"
+        " unknown / empty); metamorphic oracle: every attribute equals the original with the induced symbol map applied,"
+        " original unchanged, C01 predicate on the result, numeric intensity equality",
+        "Expected attributes are computed by harness code with sympy xreplace on the original model; the original's"
+        " digest is compared before/after; the renamed and the original expression are lambdified and compared at 3"
+        " random points with carried-over values (merged parameters share their value).",
+        "Merges are generated between parameters of equal assumptions (documented use); parameter<->kinematic merges"
+        " only assert that nothing raises.",
+        "DESIGN.md §4 C17",
+    ),
+})
+
 NOT_CLAIMED: dict[str, str] = {}
 DEFAULT_REASON = "check not built yet in this round (planned: DESIGN.md §4); no verdict is claimed"
 
